@@ -545,37 +545,38 @@ impl<S: BitmapSlice + Send + Sync> FileSystem for PassthroughFs<S> {
         let mut opts = FsOptions::DO_READDIRPLUS | FsOptions::READDIRPLUS_AUTO;
         // !cfg.do_import means we are under vfs, in which case capable is already
         // negotiated and must be honored.
-        if (!self.cfg.do_import || self.cfg.writeback)
-            && capable.contains(FsOptions::WRITEBACK_CACHE)
-        {
+        let writeback = (!self.cfg.do_import || self.cfg.writeback)
+            && capable.contains(FsOptions::WRITEBACK_CACHE);
+        if writeback {
             opts |= FsOptions::WRITEBACK_CACHE;
-            self.writeback.store(true, Ordering::Relaxed);
         }
-        if (!self.cfg.do_import || self.cfg.no_open)
-            && capable.contains(FsOptions::ZERO_MESSAGE_OPEN)
-        {
+        self.writeback.store(writeback, Ordering::Relaxed);
+        let no_open = (!self.cfg.do_import || self.cfg.no_open)
+            && capable.contains(FsOptions::ZERO_MESSAGE_OPEN);
+        if no_open {
             opts |= FsOptions::ZERO_MESSAGE_OPEN;
             // We can't support FUSE_ATOMIC_O_TRUNC with no_open
             opts.remove(FsOptions::ATOMIC_O_TRUNC);
-            self.no_open.store(true, Ordering::Relaxed);
         }
-        if (!self.cfg.do_import || self.cfg.no_opendir)
-            && capable.contains(FsOptions::ZERO_MESSAGE_OPENDIR)
-        {
+        self.no_open.store(no_open, Ordering::Relaxed);
+        let no_opendir = (!self.cfg.do_import || self.cfg.no_opendir)
+            && capable.contains(FsOptions::ZERO_MESSAGE_OPENDIR);
+        if no_opendir {
             opts |= FsOptions::ZERO_MESSAGE_OPENDIR;
-            self.no_opendir.store(true, Ordering::Relaxed);
         }
-        if (!self.cfg.do_import || self.cfg.killpriv_v2)
-            && capable.contains(FsOptions::HANDLE_KILLPRIV_V2)
-        {
+        self.no_opendir.store(no_opendir, Ordering::Relaxed);
+        let killpriv_v2 = (!self.cfg.do_import || self.cfg.killpriv_v2)
+            && capable.contains(FsOptions::HANDLE_KILLPRIV_V2);
+        if killpriv_v2 {
             opts |= FsOptions::HANDLE_KILLPRIV_V2;
-            self.killpriv_v2.store(true, Ordering::Relaxed);
         }
+        self.killpriv_v2.store(killpriv_v2, Ordering::Relaxed);
 
-        if capable.contains(FsOptions::PERFILE_DAX) {
+        let perfile_dax = capable.contains(FsOptions::PERFILE_DAX);
+        if perfile_dax {
             opts |= FsOptions::PERFILE_DAX;
-            self.perfile_dax.store(true, Ordering::Relaxed);
         }
+        self.perfile_dax.store(perfile_dax, Ordering::Relaxed);
 
         Ok(opts)
     }
